@@ -734,13 +734,17 @@ func config() *progen.Config {
 // decides which combinations are ill-typed (the others are not judged).
 var opndTypes = []string{"int", "uint8", "float64", "bool", "string", "[]int", "[3]int", "*[3]int", "*[]int", "**[3]int", "[]string", "[2][]int",
 	"map[string]int", "*map[string]int", "chan int", "<-chan int", "chan<- int", "*chan int", "struct{ a int }", "*struct{ a int }", "func()", "func(int) int",
-	"interface{}", "error", "*int", "*string", "complex128", "NS", "*NS", "NA", "*NA", "NM", "*NM", "NI", "NP"}
+	"interface{}", "error", "*int", "*string", "complex128", "NS", "*NS", "NA", "*NA", "NM", "*NM", "NI", "NP", "NRC", "NSC", "NRC2", "NSC2"}
 
 const opndDecls = `type NS []int
 	type NA [3]int
 	type NM map[string]int
 	type NI int
 	type NP *[3]int
+	type NRC <-chan int
+	type NSC chan<- int
+	type NRC2 NRC
+	type NSC2 NSC
 `
 
 // each form uses x (of the first type) and possibly y (of the second one)
@@ -754,6 +758,7 @@ var opForms = []struct{ name, src string }{
 	{"assign", "x = y"}, {"op-assign", "x += y"}, {"conv", "_ = NI(x)"}, {"conv-slice-array", "_ = NA(x)"}, {"assert", "_ = x.(int)"}, {"typeswitch", "switch x.(type) {\n\t}"},
 	{"if-cond", "if x {\n\t}"}, {"switch-tag", "switch x {\n\tcase y:\n\t}"}, {"go", "go x()"}, {"defer", "defer x()"}, {"addr-of-call", "_ = &x()"}, {"make", "_ = make(NS, x)"}, {"make-cap", "_ = make(NS, 1, y)"},
 	{"array-len", "var a [3]int\n\t_ = a[x]"}, {"map-key", "m := map[NS]int{}\n\t_ = m"}, {"nil-compare", "_ = x == nil"}, {"nil-assign", "x = nil"},
+	{"select-send", "select {\n\tcase x <- y:\n\tdefault:\n\t}"}, {"select-recv", "select {\n\tcase <-x:\n\tdefault:\n\t}"}, {"select-recv-ok", "select {\n\tcase v, ok := <-x:\n\t\t_, _ = v, ok\n\tdefault:\n\t}"},
 }
 
 func genOpSnippet(t *rapid.T) snippet {
